@@ -40,6 +40,15 @@ impl Gate {
             eprintln!("pass done: open={} iterations={} elapsed={:?}", *g, n, start.elapsed());
         }
     }
+    /// open after a short delay, from another thread: the event that triggers the release is
+    /// emitted just BEFORE the racing step (the notify), which gets a head start
+    fn open_later(self: &Arc<Self>, ms: u64) {
+        let g = self.clone();
+        std::thread::spawn(move || {
+            std::thread::sleep(Duration::from_millis(ms));
+            g.open();
+        });
+    }
     fn open(&self) {
         if std::env::var("PDBH_DEBUG").is_ok() {
             eprintln!("gate opened by tid {}", tid());
@@ -137,9 +146,9 @@ fn s1(dir: &std::path::Path, rec: &Arc<Recorder>, watchdog: u64) -> serde_json::
                 parity_db::set_number_of_allowed_io_operations(0);
             },
             "CommitFullPark" => gc.pass(),
-            "StoreErrNotified" => {
+            "StoreErr" => {
                 nt.store(true, Ordering::SeqCst);
-                gc.open();
+                gc.open_later(200);
             },
             _ => {},
         })));
@@ -183,9 +192,9 @@ fn s2(dir: &std::path::Path, rec: &Arc<Recorder>, watchdog: u64) -> serde_json::
         rec.set_callback(Some(Arc::new(move |name: &str, a: &[u64], _p: usize| match name {
             "LogThrottlePark" => gp.pass(),
             "WorkerLoopEnd" if a[0] == 2 && ar.load(Ordering::SeqCst) && !gf.reached.load(Ordering::SeqCst) => gf.pass(),
-            "ShutdownNotified" => {
-                gp.open();
-                gf.open();
+            "Shutdown" => {
+                gp.open_later(200);
+                gf.open_later(200);
             },
             _ => {},
         })));
@@ -231,7 +240,7 @@ fn s7(dir: &std::path::Path, rec: &Arc<Recorder>, watchdog: u64) -> serde_json::
         rec.set_callback(Some(Arc::new(move |name: &str, a: &[u64], _p: usize| match name {
             "WorkerLoopEnd" if a[0] == 4 && a[1] == 0 && ar.load(Ordering::SeqCst) && !gc.reached.load(Ordering::SeqCst) => gc.pass(),
             "EnactCleanupWait" => w.store(true, Ordering::SeqCst),
-            "ShutdownNotified" => gc.open(),
+            "Shutdown" => gc.open_later(200),
             _ => {},
         })));
     }
